@@ -160,6 +160,15 @@ def _check(ctx: Ctx) -> None:
               message="", file=fi.file, node=fi.node)
     for c in ext:
         guarded = any(isinstance(a, ast.If) for a in ancestors(c) if a is not fi.node)
+        if guarded and not empt:
+            # the other way to drop a note nothing fits: its pairing is skipped instead of being emptied first -- written out under
+            # exactly `an allowed duration is left`
+            from ..astutil import emptiness_test, path_conditions
+            pcs = path_conditions(c)
+            if len(pcs) == 1:
+                et = emptiness_test(pcs[0][0])
+                if et is not None and (et[1] is not pcs[0][1]) and (not chosen_lists or et[0] in chosen_lists):
+                    guarded = False
         ctx.check(not guarded, "KEEP", f"{FN}: pairings are added unconditionally", function=FN, construct="pairings added under a condition",
                   message="", file=fi.file, node=c)
 
@@ -192,14 +201,26 @@ def filter_rules(ctx: Ctx, only=None) -> None:
     removes = [c for c in ast.walk(fi.node) if isinstance(c, ast.Call) and call_method(c)[1] == "remove"]
     noext = []
     nxt = []
+    # a removal under `A or B` is a removal under A and a removal under B (a value is dropped when either filter wants it dropped):
+    # each disjunct is one filter, judged on its own
+    part = {}
     for c in removes:
         g = next((a for a in ancestors(c) if isinstance(a, ast.If)), None)
         if g is None:
             continue
-        if flag in {n.id for n in ast.walk(g.test) if isinstance(n, ast.Name)}:
-            noext.append((c, g))
-        else:
-            nxt.append((c, g))
+        in_body = any(c is x for y in g.body for x in ast.walk(y))
+        disj = g.test.values if isinstance(g.test, ast.BoolOp) and isinstance(g.test.op, ast.Or) and in_body else [g.test]
+        for d_ in disj:
+            if len(disj) > 1:
+                g2 = ast.copy_location(ast.If(test=d_, body=g.body, orelse=[]), g)
+                g2._parent = getattr(g, "_parent", None)
+                g2._whole = g
+            else:
+                g2 = g
+            if flag in {n.id for n in ast.walk(d_) if isinstance(n, ast.Name)}:
+                noext.append((c, g2))
+            else:
+                nxt.append((c, g2))
     ctx.check(len(noext) >= 1, "NOEXT", f"{FN}: `{flag}` filter present", function=FN, construct=f"no removal guarded by {flag}", message="",
               file=fi.file, node=fi.node)
     for c, g in noext:
@@ -212,10 +233,10 @@ def filter_rules(ctx: Ctx, only=None) -> None:
         if ok:
             nz = Normaliser()
             # definitions in force: simple assignments of every enclosing block that precede the test (outermost first)
-            chain_ = [a for a in ancestors(g) if isinstance(a, (ast.For, ast.While, ast.If, ast.FunctionDef))]
+            chain_ = [a for a in ancestors(getattr(g, "_whole", g)) if isinstance(a, (ast.For, ast.While, ast.If, ast.FunctionDef))]
             pre_ = []
             node_ = g
-            for a in [g] + chain_:
+            for a in [getattr(g, "_whole", g)] + chain_:
                 blk_ = _block_of(a)
                 pre_ = [s for s in blk_ if isinstance(s, (ast.Assign, ast.AugAssign)) and s.lineno < a.lineno] + pre_
             nz.run_block(pre_)
@@ -237,6 +258,8 @@ def filter_rules(ctx: Ctx, only=None) -> None:
         for a in ancestors(c):
             if isinstance(a, ast.For) and not (isinstance(a.iter, ast.Name) and a.iter.id == nvals):
                 break
+            if a is getattr(g, "_whole", None):
+                a = g                       # this filter's own disjunct of the shared guard
             if isinstance(a, ast.If):
                 in_body = any(node_ is x or node_ in ast.walk(x) for x in a.body)
                 if not in_body:
@@ -279,11 +302,17 @@ def filter_rules(ctx: Ctx, only=None) -> None:
                       message=f"`{short(a_, 90)}`: index normal form `{idx.canon()}`, expected position of this note + 1", file=fi.file, node=a_)
     for c, g in nxt:
         t = g.test
+        # `nxt is not None and <fit test>`: the existence of a next note is a guard, the comparison is the test
+        if isinstance(t, ast.BoolOp) and isinstance(t.op, ast.And):
+            rest_ = [v for v in t.values if not (isinstance(v, ast.Compare) and len(v.ops) == 1 and isinstance(v.ops[0], (ast.IsNot, ast.NotEq))
+                                                 and isinstance(v.comparators[0], ast.Constant) and v.comparators[0].value is None)]
+            if len(rest_) == 1:
+                t = rest_[0]
         from ..linear import relation, same_relation
         nz = Normaliser()
-        chain_ = [a for a in ancestors(g) if isinstance(a, (ast.For, ast.While, ast.If, ast.FunctionDef))]
+        chain_ = [a for a in ancestors(getattr(g, "_whole", g)) if isinstance(a, (ast.For, ast.While, ast.If, ast.FunctionDef))]
         pre_ = []
-        for a in [g] + chain_:
+        for a in [getattr(g, "_whole", g)] + chain_:
             pre_ = [s for s in _block_of(a) if isinstance(s, (ast.Assign, ast.AugAssign)) and s.lineno < a.lineno] + pre_
         nz.run_block(pre_)
         rr = relation(t, nz)
